@@ -1005,6 +1005,54 @@ pub fn c07(rep: &mut Report) {
         }
         rep.agg.merge(agg);
     }
+    // A run stays ONE request with the run's own last byte when a transfer is resumed: the body of the j-th run is
+    // cut after k bytes under a retry budget of 1; the follow-up request must start at first + k and still end at the
+    // last byte of the last chunk of the run (every 8th subset of the contiguous and the gapped layout, every run, two k).
+    {
+        let a = par_shards(nshards, threads(), |kk| {
+            let mut agg = Agg::default();
+            let lab = HttpLab::new();
+            let mut case = 0usize;
+            for (lname, descs) in layouts_ref.iter().filter(|l| l.0 == "contiguous" || l.0 == "gaps") {
+                for mask in 1..(1usize << n) {
+                    if mask % 8 != 5 {
+                        continue;
+                    }
+                    case += 1;
+                    if case % nshards != kk {
+                        continue;
+                    }
+                    let ranges: Vec<(u64, usize)> = descs.iter().enumerate().filter(|(i, _)| mask >> i & 1 == 1).map(|(_, r)| *r).collect();
+                    let runs = runs_of(&ranges);
+                    for (j, r) in runs.iter().enumerate() {
+                        let len = (r.1 - r.0) as usize;
+                        for k in [1usize, len / 2] {
+                            if k == 0 || k >= len {
+                                continue;
+                            }
+                            let mut faults = vec![HF::None; j];
+                            faults.push(HF::CutAfter(k));
+                            lab.server.arm_based(0, file_ref, Script { faults: faults.clone(), splits: vec![], keep_alive: false });
+                            lab.pooled.set(false);
+                            let items = lab.read_chunks(&ranges, 1);
+                            let got: Vec<Option<(u64, u64)>> = lab.server.log().iter().map(|l| l.range).collect();
+                            let (want, want_items) = http_model(0, file_ref, &ranges, &faults, 1);
+                            agg.add("resumed_run_cases", 1);
+                            agg.add("subsets", 1);
+                            let detail = || json!({"layout": lname, "descriptors": descs, "subset_mask": mask, "run_cut": j, "cut_after_bytes": k, "retries": 1, "requests": got, "expected": want});
+                            if got != want {
+                                agg.viol("resumed-request-bounds-wrong", detail);
+                            } else if judge_items(&items, &want_items).is_some() {
+                                agg.viol("wrong-chunk-data", detail);
+                            }
+                        }
+                    }
+                }
+            }
+            agg
+        });
+        rep.agg.merge(a);
+    }
     chunk_stream_leg(rep);
     // the real clone_cmd over HTTP with seeds and prior outputs (in place): what is missing is decided by
     // the reference clone model, not by the index the clone itself keeps
@@ -1014,8 +1062,8 @@ pub fn c07(rep: &mut Report) {
     rep.set("evaluations", json!(rep.agg.get("subsets")));
     rep.set("distinct_nontrivial", json!(rep.agg.distinct_count("request_patterns")));
     rep.set("exhaustive", json!(true));
-    rep.set("rule", json!("every subset (2^n) of the descriptors of four archive layouts (contiguous; with gaps; descriptor order != file order; contiguous with a chunk straddling offset 2^32) is requested through the real HttpReader::read_chunks in descriptor order against a logging loopback server, with and without keep-alive, half of the contiguous layout's subsets with the response bodies flushed at (or one byte past) every chunk boundary; runs of 1..9 adjacent chunks of 8 MiB (8 .. 72 MiB in one request); the same through Archive::chunk_stream on real archives whose sources repeat chunks (all subsets of the unique chunks), and through the real clone_cmd over HTTP for the seed / prior-output scenario families of C06 (missing chunks decided by the reference clone model); oracle: logged Range sequence == maximal runs of list- and offset-adjacent missing chunks with inclusive bounds first.offset .. last.end-1; non-trivial = distinct expected request patterns"));
-    rep.assume("in the absence of transfer failures (C08 covers those); the library-level subset is induced directly through read_chunks exactly as Archive::chunk_stream builds it; the CLI leg induces subsets through seeds");
+    rep.set("rule", json!("every subset (2^n) of the descriptors of four archive layouts (contiguous; with gaps; descriptor order != file order; contiguous with a chunk straddling offset 2^32) is requested through the real HttpReader::read_chunks in descriptor order against a logging loopback server, with and without keep-alive, half of the contiguous layout's subsets with the response bodies flushed at (or one byte past) every chunk boundary; runs of 1..9 adjacent chunks of 8 MiB (8 .. 72 MiB in one request); a transfer of each run cut after 1 byte / half of its bytes under a retry budget of 1 (the follow-up request starts at the first missing byte and keeps the run's last byte); the same through Archive::chunk_stream on real archives whose sources repeat chunks (all subsets of the unique chunks), and through the real clone_cmd over HTTP for the seed / prior-output scenario families of C06 (missing chunks decided by the reference clone model); oracle: logged Range sequence == maximal runs of list- and offset-adjacent missing chunks with inclusive bounds first.offset .. last.end-1; non-trivial = distinct expected request patterns"));
+    rep.assume("transfer failures only as far as the bounds of a resumed request go (C08 covers the rest); the library-level subset is induced directly through read_chunks exactly as Archive::chunk_stream builds it; the CLI leg induces subsets through seeds");
 }
 
 /// The same oracle one level up: `Archive::chunk_stream(&index)` on archives written by the real
